@@ -1,7 +1,7 @@
 use crate::{
     cfg::Cfg,
     parser::InstructionProperties,
-    passes::{DiagnosticBuilder, DiagnosticManager, LintError, LintPass},
+    passes::{DiagnosticBuilder, DiagnosticLocation, DiagnosticManager, LintError, LintPass},
 };
 use std::rc::Rc;
 
@@ -19,8 +19,13 @@ impl LintPass for ControlFlowCheck {
                 // If the previous nodes set is not empty
                 // Note: this also accounts for functions being at the beginning
                 // of a program, as the ProgEntry node will be the previous node
-                for prev_node in node.prevs().iter() {
-                    for function in node.functions().iter() {
+                // (sorted: the sets are hash-ordered)
+                let mut prevs = node.prevs().iter().cloned().collect::<Vec<_>>();
+                prevs.sort_by_key(|p| p.range());
+                let mut functions = node.functions().iter().cloned().collect::<Vec<_>>();
+                functions.sort_by_key(|f| f.name());
+                for prev_node in &prevs {
+                    for function in &functions {
                         if prev_node.is_program_entry() {
                             errors.push(LintError::FirstInstructionIsFunction(
                                 node.node().clone(),
